@@ -48,6 +48,15 @@ fn main() {
             }
             out.finish();
         }
+        Some("crcdump") => {
+            // the CRC preset and table as the IMPLEMENTATION behaves (used by bin/gen_tables.py when the literals cannot be
+            // found in the source): preset = sum32(""), TABLE[(preset >> 24) ^ d] = sum32([d]) ^ (preset << 8)
+            let init = mpeg2ts_reader::mpegts_crc::sum32(&[]);
+            let mut t = [0u32; 256];
+            for d in 0..=255u8 { t[(((init >> 24) as u8) ^ d) as usize] = mpeg2ts_reader::mpegts_crc::sum32(&[d]) ^ (init << 8); }
+            println!("{}", init);
+            println!("{}", t.iter().map(|x| x.to_string()).collect::<Vec<_>>().join(" "));
+        }
         Some("exec") if a.len() >= 4 => {
             let f = std::io::BufReader::new(std::fs::File::open(&a[2]).unwrap());
             let mut o = std::io::BufWriter::new(std::fs::File::create(&a[3]).unwrap());
